@@ -161,6 +161,9 @@ def run_corpus(exe, corp):
     for m, pre in gl:
         for cnt in (1, 5):
             lines.append(rt.gensalt_line("rn", pre, cnt, rb, 64, 192))
+    # the entry point with the static buffer, same arguments: the buffer is as large in every configuration
+    for m, pre in gl:
+        lines.append(rt.gensalt_line("st", pre, 0, rb, 64, 192))
     lines.append("preferred")
     res, end = w.run(lines, 600)
     if end is not None:
@@ -199,6 +202,10 @@ def run_corpus(exe, corp):
             r = res[base2 + j]
             j += 1
             out["gensalt_counts"][(m, cnt)] = (rt.out_of(r) if r["r"] == "O" else None, rt.errno_of(r))
+    out["gensalt_static"] = {}
+    for k, (m, pre) in enumerate(gl):
+        r = res[base2 + j + k]
+        out["gensalt_static"][m] = (rt.out_of(r) if r["r"] in ("O", "S") else None, rt.errno_of(r), r["r"])
     return out, None, lines
 
 
@@ -283,6 +290,12 @@ def judge(acc, name, en, got, full, corp, ipd):
             exp = fg if m in en else None
         if g != exp:
             viol("gensalt-count", "crypt_gensalt_rn(prefix of %s, count %d) = %r, the full build gives %r" % (m, cnt, g, exp))
+    for m, (g, e, rr) in got.get("gensalt_static", {}).items():
+        acc.count("evaluations")
+        acc.count("gensalt_static_calls")
+        if g != got["gensalt"][m][0]:
+            viol("gensalt-static", "crypt_gensalt(prefix of %s, 64 random bytes) = %r (errno %d), crypt_gensalt_rn with a "
+                                   "%d-byte buffer gives %r in the same build" % (m, g, e, 192, got["gensalt"][m][0]))
     pm = next((gen.TAG[x] for x in gen.DEFAULT_ORDER if x in en), None)
     acc.count("evaluations")
     if got["preferred"] != pm:
